@@ -1,6 +1,7 @@
 mod client_core;
 mod client_props;
 mod codec;
+mod burst;
 mod c16;
 mod c16_hist;
 mod chain;
@@ -49,7 +50,11 @@ fn parts_for(prop: &str, tier: Tier) -> Vec<Box<dyn explore::Harness>> {
         "C06" => vec![s(SProp::C06)],
         "C08" => vec![s(SProp::C08)],
         "C10" => vec![c(CProp::C10), s(SProp::C10)],
-        "C11" => vec![c(CProp::C11), s(SProp::C11)],
+        "C11" => vec![
+            c(CProp::C11),
+            s(SProp::C11),
+            Box::new(burst::BurstHarness { cfgs: burst::configs(tier == Tier::Thorough) }),
+        ],
         "C12" => vec![s(SProp::C12)],
         "C14" => vec![c(CProp::C14), s(SProp::C14)],
         "C18" => vec![c(CProp::C18), hc(chain_props::HProp::C18)],
@@ -180,7 +185,8 @@ fn run(prop: &str, tier: Tier, replay: Option<String>) -> i32 {
         }
         let cheap = matches!(prop, "C03" | "C05" | "C18");
         let bounds = match tier {
-            Tier::Quick if cheap => vec![0, 1, 2, 3],
+            // (C05 has grown: three deviations only in the thorough tier)
+            Tier::Quick if cheap && prop != "C05" => vec![0, 1, 2, 3],
             Tier::Quick => vec![0, 1, 2],
             Tier::Thorough if cheap => vec![0, 1, 2, 3, 4],
             Tier::Thorough => vec![0, 1, 2, 3],
@@ -227,6 +233,9 @@ fn do_replay(prop: &str, path: &str) -> i32 {
         .collect();
     let sig = doc["signature"].as_str().unwrap_or("");
     let harness = doc["harness"].as_str().unwrap_or("");
+    if doc["regime"].as_str() == Some("trace-subscriber") {
+        driver::install_trace_subscriber();
+    }
     if harness.starts_with("chain") {
         let hp = match prop {
             "C02" => chain_props::HProp::C02,
@@ -239,6 +248,19 @@ fn do_replay(prop: &str, path: &str) -> i32 {
             eprintln!("machinery: {e}");
             return 2;
         }
+        println!("{}", out.render.unwrap_or_default());
+        for v in &out.violations {
+            println!("violated: {} — {}", v.signature, v.message);
+        }
+        if out.violations.iter().any(|v| v.signature == sig) {
+            println!("VIOLATION property={prop} replay={path}");
+            return 1;
+        }
+        return 0;
+    }
+    if harness.starts_with("burst") {
+        let cfg: burst::BurstCfg = serde_json::from_value(doc["config"].clone()).expect("config");
+        let out = burst::run_cfg(&cfg, true);
         println!("{}", out.render.unwrap_or_default());
         for v in &out.violations {
             println!("violated: {} — {}", v.signature, v.message);
